@@ -504,4 +504,22 @@ theorem many_signatures_work_not_linear (c opsLen sigLen : Nat) :
 
 example : sigHashWork 3 [8192, 8192, 100] = 3 * 16484 := by decide
 
+/-! ## ignored packets behind a message are not kept (D19e) -/
+
+theorem d19e_repaired : Gen.fixD19eTrailingPacketsDrained = 1 := by decide
+
+/-- whatever the size of a trailing ignored packet and however it arrives, at most one `drain` buffer
+of it is held -/
+theorem trailing_packet_not_kept (reads : List Nat) : ∀ h ∈ heldTrailing reads, h ≤ Gen.drainChunk := by
+  intro h hh
+  unfold heldTrailing at hh
+  rw [if_pos d19e_repaired] at hh
+  unfold heldDrained at hh
+  obtain ⟨c, _, rfl⟩ := List.mem_map.mp hh
+  exact Nat.min_le_left _ _
+
+/-- regression witness: collected, a 16 MiB packet read in 8 KiB pieces ends with all of it held -/
+theorem d19e_witness : (heldCollected (List.replicate 4 8192)).getLast? = some 32768 ∧
+    (heldDrained (List.replicate 4 8192)).getLast? = some 256 := by decide
+
 end Rpgp.C19
